@@ -777,6 +777,12 @@ EGLPNUM_TYPENAME_QSLIB_INTERFACE EGLPNUM_TYPENAME_QSdata *EGLPNUM_TYPENAME_QScop
 	p2->pricing->pII_price = p->pricing->pII_price;
 	p2->pricing->dI_price = p->pricing->dI_price;
 	p2->pricing->dII_price = p->pricing->dII_price;
+	/* the remaining settable parameters: limits */
+	p2->lp->maxiter = p->lp->maxiter;
+	p2->lp->maxtime = p->lp->maxtime;
+	EGLPNUM_TYPENAME_EGlpNumCopy (p2->uobjlim, p->uobjlim);
+	EGLPNUM_TYPENAME_EGlpNumCopy (p2->lobjlim, p->lobjlim);
+	EGLPNUM_TYPENAME_EGlpNumCopy (p2->lp->objbound, p->lp->objbound);
 
 	if (p->qslp->intmarker != 0)
 	{
